@@ -77,8 +77,12 @@ impl Prop for C06 {
             // g: (one-shot-pause-processing N), tapped only while no one-shot is active and more than
             // N ms before the next one: a pause "for a time" that is over must change nothing
             let pause_n = *r.pick(&[20u64, 100]);
+            // the second one-shot key: same variant and timeout, except in the episodes population,
+            // where it is any variant with a much longer timeout (what one episode leaves behind of
+            // its timeout must not carry over into a later one-shot with a shorter one)
+            let (v2, t2) = if pop == "episodes" { (*r.pick(VARIANTS), 4 * t + 200) } else { (v, t) };
             case.cfg = format!(
-                "(defcfg rapid-event-delay {red})\n(defsrc a b c d e f g)\n(deflayer l0 ({v} {t} {p}) 1 2 ({v} {t} {p2}) {custom} 5 (one-shot-pause-processing {pause_n}))\n(deflayer l1 _ 3 4 _ _ _ _)\n"
+                "(defcfg rapid-event-delay {red})\n(defsrc a b c d e f g)\n(deflayer l0 ({v} {t} {p}) 1 2 ({v2} {t2} {p2}) {custom} 5 (one-shot-pause-processing {pause_n}))\n(deflayer l1 _ 3 4 _ _ _ _)\n"
             );
             let g_key = oscode_of("g");
             let e_key = oscode_of("e");
@@ -157,7 +161,31 @@ impl Prop for C06 {
                             ops.push(Op::Release(g_key));
                             ops.push(Op::Gap((pause_n + 10) as u32));
                         }
-                        match r.pick_w(&[30, 30, 25, if is_pcancel(v) { 0 } else { 25 }, 25, 30]) {
+                        match r.pick_w(&[30, 30, 25, if is_pcancel(v) { 0 } else { 25 }, 25, 30, 25, 30]) {
+                            7 => {
+                                // tapped and left alone: it expires after T, the key after that is plain
+                                ops.push(Op::Press(a));
+                                ops.push(Op::Gap(2));
+                                ops.push(Op::Release(a));
+                                ops.push(Op::Gap((t + 15) as u32));
+                                must_not.push(ops.len());
+                                ops.push(Op::Press(c));
+                                ops.push(Op::Gap(3));
+                                ops.push(Op::Release(c));
+                                ops.push(Op::Gap(after_end));
+                            }
+                            6 => {
+                                // an episode of the other one-shot key (long timeout, any variant),
+                                // used up by one following key long before its timeout
+                                ops.push(Op::Press(a2));
+                                ops.push(Op::Gap(2));
+                                ops.push(Op::Release(a2));
+                                ops.push(Op::Gap(r.range(2, 4) as u32));
+                                ops.push(Op::Press(e_key));
+                                ops.push(Op::Gap(3));
+                                ops.push(Op::Release(e_key));
+                                ops.push(Op::Gap(after_end));
+                            }
                             5 => {
                                 // two overlapping following keys, the later one released first, then a
                                 // third key while the first is still held: press variants end at the
